@@ -576,11 +576,13 @@ impl Prop for P {
                 workers: 8,
                 cases_per_worker: 1200,
                 timeout_s: 1200,
+                max_shrink_iters: 2000,
             },
             Tier::Thorough => Plan {
                 workers: 16,
                 cases_per_worker: 20000,
                 timeout_s: 7200,
+                max_shrink_iters: 2000,
             },
         }
     }
